@@ -245,6 +245,11 @@ def run_family(workdir, fam, seed, tier, extra=None, timeout=7200):
             summary = json.loads(line); break
         except Exception:
             continue
+    if rc != 0 and summary is None:
+        # the harness itself stopped (its panic hook is silent): run once more with the hook off so that the replay file says where
+        rc2, out2, _ = sh(cmd, cwd=HARNESS, timeout=timeout, env={'RUST_BACKTRACE': '0', 'VH_PANIC': '1'})
+        keep = [l[:600] for l in out2.split('\n') if 'panicked at' in l or l.startswith('unrecoverable') or 'Error' in l[:40]]
+        out = out + '\n[re-run with the panic hook off] ' + '\n'.join(keep[-12:])
     return dict(rc=rc, cases=cases, summary=summary, log=out[-3000:], wall_s=dt)
 
 
